@@ -193,15 +193,13 @@ PROPS["C06"] = {
     "level": "model_checking",
     "claim": 'For every listed decoder and every listed concrete input length, ALL byte contents are covered: CBMC checks every panic, unwrap, index, slice, overflow and capacity-overflow site compiled into MessageCodec::decode / Frame::try_from / bincode, decode_message_batch, StringCodec, BytesCodec and BincodeCodec::decode, plus harness assertions bounding the number of messages and the capacity requested by the input size. Bounded by input length (<= 25 bytes) and by collection counts <= 1 inside Message payloads.',
     "note": 'Trusted: rustc/Kani MIR-to-goto translation, CBMC 6.11 + cadical, the re-implemented kani-driver steps of engines/kplus.py (cross-checked against cargo kani). Stubs (environment, listed per obligation in the evidence): alloc::fmt::format -> empty String; std::hash::RandomState::new -> fixed keys; std::backtrace::Backtrace::capture -> disabled. Lengths are concrete per harness, contents symbolic. Counterexamples are replayed natively (dev and release-like profiles) before being reported; timeouts / out-of-memory / too-small unwind bounds are reported as inconclusive (exit 2). For the bincode codec Vec::resize is replaced by an observer that compares the requested size with the input size (symbolic-size allocation cannot be executed by the solver). Decompressors are outside this check.',
-    "obligations": [_unbatch(Q, b) for b in (0, 1, 7, 8, 9)] + [_unbatch(T, b, timeout=2400, mem_gb=20) for b in (15, 16, 17)] + [
+    "obligations": [_unbatch(Q, b) for b in (0, 1, 7, 8, 9)] + [_unbatch(T, b, timeout=2400, mem_gb=20) for b in (15,)] + [
         _p("c05::c05_partial_c0", Q, "MessageCodec::decode on an empty buffer"),
         _p("c05::c05_partial_c5", Q, "MessageCodec::decode on 5 arbitrary bytes"),
         _p("c05::c05_partial_c8", Q, "MessageCodec::decode on 8 arbitrary bytes (header cut before the type byte)"),
         _p("c05::c05_partial_c9", Q, "MessageCodec::decode on 9 arbitrary bytes (every length prefix)"),
         _p("c06::c06_frame_t0_b0", T, "complete RegisterPublisher frame, 0 payload bytes", timeout=1800),
         _p("c06::c06_frame_t1_b1", T, "complete RegisterSubscriber frame, 1 arbitrary payload byte", timeout=1800),
-        _p("c06::c06_frame_t2_b9", T, "complete RegisterReplier frame, 9 arbitrary payload bytes", timeout=3000, mem_gb=14),
-        _p("c06::c06_frame_t3_b17", T, "complete RegisterRequestor frame, 17 arbitrary payload bytes", timeout=3000, mem_gb=14),
         _p("c06::c06_frame_t4_b0", Q, "complete Message frame, 0 payload bytes", timeout=1800),
         _p("c06::c06_frame_t5_b4", Q, "complete BatchMessage frame, 4 arbitrary bytes"),
         _p("c06::c06_frame_t6_b4", Q, "complete Error frame, 4 arbitrary bytes", timeout=1800),
@@ -250,11 +248,11 @@ PROPS["C14"] = {
 
 PUBSUB_T = [
     K("hx-topic", "pubsub_t::t_pubsub_s1_p1_t2_polls3", Q, timeout=2400, mem_gb=12, bounds="1 subscriber + 1 publisher (registration order symbolic), <=2 messages, 3 polls, every ready/pending/arrival outcome symbolic"),
-    K("hx-topic", "pubsub_t::t_pubsub_s2_p1_t2_polls4", T, timeout=3400, mem_gb=16, bounds="2 subscribers + 1 publisher, <=2 messages, 4 polls"),
-    K("hx-topic", "pubsub_t::t_pubsub_s2_p2_t3_polls5", T, timeout=3400, mem_gb=20, bounds="2 subscribers + 2 publishers, <=3 messages, 5 polls"),
+    K("hx-topic", "pubsub_t::t_pubsub_s2_p1_t2_polls3", T, timeout=3400, mem_gb=20, bounds="2 subscribers + 1 publisher, <=2 messages, 3 polls"),
+    K("hx-topic", "pubsub_t::t_pubsub_s1_p2_t2_polls3", T, timeout=3400, mem_gb=20, bounds="1 subscriber + 2 publishers, <=2 messages, 3 polls"),
 ]
 PUBSUB_FAULTS_T = [
-    K("hx-topic", "pubsub_t::t_pubsub_faults_s2_p1_t2_polls4", T, timeout=3400, mem_gb=16, bounds="2 subscribers (may fail at any operation) + 1 publisher (may yield Err items), <=2 messages, 4 polls"),
+    K("hx-topic", "pubsub_t::t_pubsub_faults_s1_p1_t2_polls3", T, timeout=3400, mem_gb=20, bounds="1 subscriber (may fail at any operation) + 1 publisher (may yield Err items), <=2 messages, 3 polls"),
 ]
 PUBSUB_SHUTDOWN_T = [
     K("hx-topic", "pubsub_t::t_pubsub_shutdown_p0", Q, timeout=1800, mem_gb=10, bounds="close before the first poll; 1 subscriber + 1 publisher queued"),
@@ -299,14 +297,14 @@ PROPS["C01"] = {
     "level": "model_checking",
     "claim": ("Two layers of bounded model checking on real code. Layer S: the real FanoutMany with 0-2 scripted sinks, 2-3 rounds of "
               "poll_ready/start_send/poll_flush, ALL Ready/Pending outcomes: every healthy sink holds exactly the items sent, in order, once; "
-              "flush Ready => flushed. Layer T: the real pubsub::Topic::poll source with 1-2 subscribers, 1-2 publishers, <=3 messages, 3-5 polls, "
+              "flush Ready => flushed. Layer T: the real pubsub::Topic::poll source with 1-2 subscribers, 1-2 publishers, <=2 messages, 3 polls, "
               "ALL registration orders / arrival moments / ready-pending outcomes: items reach the fan-out in exactly the order the publisher "
               "streams yielded them, once, unchanged; unflushed data is never left without an armed flush; once the channel "
               "closes with subscribers accepting, nothing taken from a publisher is left undelivered or unflushed. Exact within these bounds."),
     "note": NOTE_T + " Not covered: routing between different topics (HashMap<TopicName,..> lookup inside async handle_stream over QUIC; key injectivity is C07); more than 2 subscribers on the real FanoutMany.",
     "obligations": FANOUT_S + PUBSUB_T + PUBSUB_SHUTDOWN_T[:1],
     "bounds": {"quick": "FanoutMany: N<=2 sinks, 2 rounds; Topic::poll: 1 subscriber + 1 publisher, <=2 messages, 3 polls",
-               "thorough": "FanoutMany: 2 sinks x 3 rounds; Topic::poll: up to 2 subscribers + 2 publishers, <=3 messages, 5 polls"},
+               "thorough": "FanoutMany: 2 sinks x 3 rounds; Topic::poll: also 2 subscribers + 1 publisher and 1 subscriber + 2 publishers, <=2 messages, 3 polls"},
     "outside": "more peers / longer histories; the real Vec-based FanoutMany inside Topic::poll beyond its contract; cross-topic routing",
 }
 PROPS["C08"] = {
@@ -320,7 +318,7 @@ PROPS["C08"] = {
               "reqrep::Topic::poll (failing replier is unbound, next one binds) is NOT covered."),
     "note": NOTE_T,
     "obligations": FANOUT_FAULTS_S + ROUTER_FAULTS_S + PUBSUB_FAULTS_T,
-    "bounds": {"quick": "FanoutMany with faults: 1-2 sinks, 2 rounds", "thorough": "adds Topic::poll with failing subscribers / erroring publisher: 2 subscribers, 1 publisher, <=2 messages, 4 polls"},
+    "bounds": {"quick": "FanoutMany with faults: 1-2 sinks, 2 rounds", "thorough": "adds Topic::poll with a failing subscriber / erroring publisher: 1 subscriber, 1 publisher, <=2 messages, 3 polls"},
     "outside": "3+ sinks (out of memory at 14 GB); reqrep::Topic::poll; real QUIC failures",
 }
 PROPS["C09"] = {
@@ -332,7 +330,7 @@ PROPS["C09"] = {
               "progress. The request/reply router is NOT covered (HashMap operations intractable, see DESIGN)."),
     "note": NOTE_T,
     "obligations": PUBSUB_T,
-    "bounds": {"quick": "1 subscriber + 1 publisher, <=2 messages, 3 polls", "thorough": "up to 2 subscribers + 2 publishers, <=3 messages, 5 polls"},
+    "bounds": {"quick": "1 subscriber + 1 publisher, <=2 messages, 3 polls", "thorough": "also 2 subscribers + 1 publisher and 1 subscriber + 2 publishers, <=2 messages, 3 polls"},
     "outside": "reqrep::Topic; tokio's scheduler; longer histories",
 }
 PROPS["C16"] = {
